@@ -949,6 +949,7 @@ func ruleC15(c *Ctx, r *Report) {
 	// that is licensed as a '$field' reference (J4) or as a string in a FieldName position (J2)
 	// lies under "the field-name flag is off" wherever the walker has that flag
 	keptOrd := map[string]int{}
+	okOrd := map[string]int{}
 	for _, s := range p.sinks(p.Zone) {
 		if !s.Raw || !(strings.HasPrefix(s.Just, "J4") || s.Just == "J2:tbl==FieldName&string") {
 			continue
@@ -997,8 +998,17 @@ func ruleC15(c *Ctx, r *Report) {
 		if strings.HasPrefix(s.Just, "J2") {
 			what = "a field name in a FieldName position (a search path, an output field)"
 		}
-		keptOrd[s.Fn.Name()+s.Kind]++
-		r.Check(flagOff, "C15-R3", fmt.Sprintf("%s:reference-kept-only-without-the-flag(%s)#%d", s.Fn.Name(), s.Kind, keptOrd[s.Fn.Name()+s.Kind]), c.InstrPos(s.Instr),
+		// instances are numbered among the offending ones only (in source order), so that a
+		// listed finding keeps its key when code around it is restructured
+		ord := 0
+		if !flagOff {
+			keptOrd[s.Fn.Name()+s.Kind]++
+			ord = keptOrd[s.Fn.Name()+s.Kind]
+		} else {
+			okOrd[s.Fn.Name()+s.Kind]++
+			ord = 100 + okOrd[s.Fn.Name()+s.Kind]
+		}
+		r.Check(flagOff, "C15-R3", fmt.Sprintf("%s:reference-kept-only-without-the-flag(%s)#%d", s.Fn.Name(), s.Kind, ord), c.InstrPos(s.Instr),
 			what+" is passed through unchanged only where the field-name flag is off",
 			what+" is emitted unchanged although the field-name mode can be on here: the name stays in clear while the same field is renamed as a key, in the sort document and in the plan summary")
 	}
